@@ -1,3 +1,4 @@
+import errno
 import hashlib
 import inspect
 import json
@@ -510,7 +511,11 @@ class CachedFilesystem:
         if path not in self._cache:
             try:
                 st = os.stat(path)
-            except FileNotFoundError:
+            except OSError as exc:
+                # No file of this name exists either when a component of the path
+                # is not a directory or when the path is a symlink loop.
+                if exc.errno not in (errno.ENOENT, errno.ENOTDIR, errno.ELOOP):
+                    raise
                 self._cache[path] = None
             else:
                 self._cache[path] = st.st_mtime
